@@ -347,6 +347,29 @@ func (p *sparser) parsePrimary() SExpr {
 }
 
 // parseTypeText reads a type as raw text: [*][[]]id[.id]
+// specCalls collects the names of functions applied in a spec expression.
+func specCalls(x SExpr, out map[string]bool) {
+	switch x := x.(type) {
+	case SUnary:
+		specCalls(x.X, out)
+	case SBinary:
+		specCalls(x.X, out)
+		specCalls(x.Y, out)
+	case SCall:
+		out[x.Fun] = true
+		for _, a := range x.Args {
+			specCalls(a, out)
+		}
+	case SSel:
+		specCalls(x.X, out)
+	case SIndex:
+		specCalls(x.X, out)
+		specCalls(x.I, out)
+	case SQuant:
+		specCalls(x.Body, out)
+	}
+}
+
 func (p *sparser) parseTypeText() string {
 	var b strings.Builder
 	for p.isOp("*") || p.isOp("[") {
@@ -382,6 +405,7 @@ type Clause struct {
 	Expr  SExpr
 	Free  bool // assumed, not checked (only for trusted specs)
 	Pkg   string
+	Induct string // lemma: variable to do induction on
 }
 
 type LoopSpec struct {
@@ -422,6 +446,7 @@ type Contract struct {
 	File       string
 	Line       int
 	Pragmas    []string
+	Uses       []SCall // lemma / axiom instances to assume
 }
 
 type SpecFile struct {
@@ -446,6 +471,7 @@ var (
 	reTags     = regexp.MustCompile(`^\[([A-Z0-9 ,]+)\]\s*`)
 	reLabel    = regexp.MustCompile(`^([A-Za-z][\w\-]*):\s+`)
 	reFunHdr   = regexp.MustCompile(`^(\S.*?)(?:\s+params\((.*)\))?$`)
+	reInduct   = regexp.MustCompile(`^((?:\[[A-Z0-9 ,]+\]\s*)?[A-Za-z][\w\-]*)\s+induction\s+(\w+)(:\s+.*)$`)
 	reSpecFun  = regexp.MustCompile(`^(\w+)\((.*?)\)\s*([\w\.\*\[\]]+)(?:\s*=\s*(.*))?$`)
 )
 
@@ -456,7 +482,7 @@ func parseClause(rest string, defProps []string) (Clause, error) {
 		rest = rest[len(m[0]):]
 	}
 	if m := reLabel.FindStringSubmatch(rest); m != nil {
-		c.Label = m[1]
+		c.Label = strings.ReplaceAll(m[1], "-", "_")
 		rest = rest[len(m[0]):]
 	}
 	c.Text = strings.TrimSpace(rest)
@@ -610,6 +636,22 @@ func loadSpecFile(path string, sf *SpecFile) error {
 			default:
 				return fail(fmt.Errorf("unknown loop clause %q", f[1]))
 			}
+		case "use":
+			if cur == nil {
+				return fail(fmt.Errorf("use outside func"))
+			}
+			if k := strings.Index(rest, "("); k > 0 {
+				rest = strings.ReplaceAll(rest[:k], "-", "_") + rest[k:]
+			}
+			x, err := parseSpecExpr(rest)
+			if err != nil {
+				return fail(err)
+			}
+			c, ok := x.(SCall)
+			if !ok {
+				return fail(fmt.Errorf("use NAME(args) expected"))
+			}
+			cur.Uses = append(cur.Uses, c)
 		case "arith":
 			cur.Arith = rest
 		case "trusted", "may_panic", "inline", "noreturn", "pure":
@@ -661,7 +703,13 @@ func loadSpecFile(path string, sf *SpecFile) error {
 			sf.FunOrder = append(sf.FunOrder, fn.Name)
 			cur = nil
 		case "axiom", "lemma":
+			induct := ""
+			if m := reInduct.FindStringSubmatch(rest); m != nil {
+				induct = m[2]
+				rest = m[1] + m[3]
+			}
 			c, err := parseClause(rest, nil)
+			c.Induct = induct
 			if err != nil {
 				return fail(err)
 			}
